@@ -288,3 +288,17 @@ Proof.
   unfold genuine, slot_near. vm_compute.
   repeat split; auto; try (right; left; reflexivity); discriminate.
 Qed.
+
+(* ------------------------------------------------------------------------------------------------
+   Tie to the code (Gen/Fns.v is regenerated from header.rs on every run by tools/gen_fns.py; see design.d/GEN.md):
+   the model's `select` is the function translated from UnrepairedDatabaseHeader::select_primary_slot. *)
+From RV Require Import Gen.FnsLib Gen.Fns Gen.FnsRecoverP.
+
+Theorem c12_code_select_primary_slot_is_model : forall (sum : Type) (sum_eqb : sum -> sum -> bool) (H : list N -> sum)
+  (x : Merkle.db sum),
+  Merkle.select sum sum_eqb H x =
+  UnrepairedDatabaseHeader_select_primary_slot (Merkle.two_phase sum x)
+    (negb (Merkle.slot_sum_ok sum sum_eqb H (Merkle.primary sum x)))
+    (negb (Merkle.slot_sum_ok sum sum_eqb H (Merkle.secondary sum x)))
+    (Merkle.s_txid sum (Merkle.primary sum x)) (Merkle.s_txid sum (Merkle.secondary sum x)).
+Proof. exact merkle_select_is_model. Qed.
